@@ -638,8 +638,11 @@ class Daemon:
                     if time.time() > deadline:
                         raise
                     time.sleep(0.005)
-            for c in st.chunks:
-                s.sendall(c)
+            try:
+                for c in st.chunks:
+                    s.sendall(c)
+            except OSError:
+                pass        # the peer may already have answered and closed (it must not, but what it sent is still read below)
             if st.stays:
                 while True:
                     m = s.recv(1 << 16)
